@@ -40,15 +40,15 @@ GRACE_S = 60
 
 FINDING = 'C18-torn-overwrite-unpickle-escapes'
 
-N = {'quick': dict(payloads=46, keys=6, rec=72, recx=8, conc=16, users=3, realkills=1),
-     'thorough': dict(payloads=640, keys=60, rec=2000, recx=90, conc=600, users=6, realkills=6)}
+N = {'quick': dict(payloads=40, keys=5, rec=64, recx=6, conc=16, users=3, realkills=1),
+     'thorough': dict(payloads=640, keys=60, rec=2000, recx=90, conc=600, users=6, realkills=3)}
 
-CORE = [('scalar', 0), ('scalar', 6), ('scalar', 12), ('scalar', 13), ('scalar', 16), ('scalar', 18), ('scalar', 19),
-        ('nested', 1), ('nested', 2), ('nested', 3), ('nested', 4), ('nested', 5),
+CORE = [('scalar', 0), ('scalar', 6), ('scalar', 12), ('scalar', 16), ('scalar', 18), ('scalar', 19), ('scalar', 20),
+        ('nested', 1), ('nested', 2), ('nested', 3), ('nested', 4),
         ('array', 0), ('array', 1), ('array', 2), ('array', 3), ('array', 4), ('array', 5), ('arrays', 1), ('arrays', 2), ('bigarray', 0),
         ('arraydata', 0), ('arraydata', 5), ('arraydata', 10), ('frozenarray', 0), ('evaluable', 0), ('evaluable', 1), ('evaluable', 3),
-        ('matrix', 0), ('matrix', 3), ('solve', 0), ('solve', 1), ('solve', 2), ('gmshdict', 0), ('topology', 0), ('topology', 2), ('function', 0),
-        ('sample', 1), ('system', 0), ('raise', 0), ('raise-oserror', 1), ('raise-eof', 2), ('nested', 7), ('array', 7), ('scalar', 20), ('arraydata', 3)]
+        ('matrix', 0), ('matrix', 3), ('solve', 0), ('solve', 1), ('gmshdict', 0), ('topology', 0), ('topology', 2), ('function', 0),
+        ('sample', 1), ('system', 0), ('raise', 0), ('raise-oserror', 1), ('raise-eof', 2)]
 KINDS = ['scalar', 'nested', 'array', 'arrays', 'arraydata', 'frozenarray', 'evaluable', 'matrix', 'solve', 'gmshdict', 'topology', 'function',
          'sample', 'system', 'raise', 'nested', 'array', 'scalar']
 NLOGS = [0, 1, 0, 3, 20, 0, 2, 7]
@@ -373,7 +373,7 @@ def run_payload(S, spec, users=False):
             res.count('fault_model_mismatch/trunc')
             res.note(f'real kill at byte {k} left {len(left)} bytes that are not the {k}-byte prefix of the entry: {spec}')
         with cache.enable(dk):
-            o, ok = check_call(S, dict(case, family='realkill', k=k, how=how), pl, model, f'call after the writer was killed ({how}) at byte {k}', expect_executed=1, fam='realkill')
+            o, ok = check_call(S, dict(case, family='realkill', k=k, how=how), pl, model, f'call after the writer was killed ({how}) at byte {k}', expect_executed=1 if k < len(new) else 0, fam='realkill')
             if ok:
                 check_call(S, dict(case, family='realkill', k=k, how=how), pl, model, f'hit after repair of a real kill at byte {k}', expect_executed=0, fam='realkill')
         stats['realkill'] += 1
@@ -607,7 +607,18 @@ def execute_rec(S, case):
     probs = []
     for op in hist:
         probs += R.apply_op(spec, op, d, res, timeout=S.timeout(30))
-    full = R.run(spec, NFULL, d)
+    full = None
+    if case.get('index', 1) % 9 == 0 and not S.ctx.expired():
+        # the final full run in a fresh interpreter (what the next program start would see)
+        rc, full, tail = subprocess_job(dict(mode='rec_run', spec=spec, n=NFULL, cachedir=d), S.root, S.timeout(90))
+        if rc == 0 and full is not None:
+            res.count('rec_subprocess_full_runs')
+        else:
+            res.count('rec_subprocess_failed')
+            res.note(f'recursion subprocess run rc={rc} {tail[-200:]}')
+            full = None
+    if full is None:
+        full = R.run(spec, NFULL, d)
     res.count('calls', len(hist) + 2)
     probs += R.diff(full, model, f'full run after history {hist}')
     res.count('rec_end/' + model['end'].split(':')[0])
@@ -861,8 +872,7 @@ def repro_torn_overwrite():
         if (s1, s2) != ('exit:137', 'exit:137'):
             return None, f'writers ended with {s1}, {s2}'
         left = L.read_file(only_file(d))
-        if left == new[:k]:
-            return False, 'the second writer truncated the torn entry before rewriting it: only prefixes can be left behind'
+        state = 'a pure prefix of the new entry (the writer truncates before dumping)' if left == new[:k] else 'new[:k]+old[k:j]' if left == new[:k] + old[k:j] else 'unexpected bytes'
 
         def reader():
             P.set_variant('short')
@@ -874,9 +884,9 @@ def repro_torn_overwrite():
         o = L.Outcome.from_json(out)
         if L.compare(o, model, 'reader'):
             return True, (f'cache.function entry of {len(old)} bytes torn at byte {j} by a killed writer, rewritten by a second writer (equal value, '
-                          f'{len(new)}-byte serialisation) killed at byte {k}: the next call {o.brief()} instead of recomputing '
+                          f'{len(new)}-byte serialisation) killed at byte {k}; the file holds {state}: the next call {o.brief()} instead of recomputing '
                           f'({len(cands)} of {len(new) - 1} cut points k behave like this)')
-        return False, f'the doubly-torn entry (k={k}) was treated as a miss'
+        return False, f'after two killed writers (j={j}, k={k}) the file holds {state}; the next call recomputed and returned the uncached value'
     finally:
         P.set_variant('short')
         shutil.rmtree(root, ignore_errors=True)
@@ -931,7 +941,7 @@ def finalize(m, tier, seed):
                                              distinct_values=len(m.sets.get('key_entries', ())), files=c.get('keys_files', 0))),
         recursion=dict(histories=c.get('rec_histories', 0), distinct_histories=len(m.sets.get('rec_distinct', ())), ops=sub('rec_ops/'), lengths=sub('rec_length/'),
                        modes=sub('rec_mode/'), shapes=sub('rec_shape/'), ends=sub('rec_end/'), real_kills=c.get('rec_real_kills', 0),
-                       kill_not_reached=c.get('rec_kill_not_reached', 0), files_truncated=c.get('rec_files_truncated', 0), items_resumed=c.get('rec_items_resumed', 0),
+                       kill_not_reached=c.get('rec_kill_not_reached', 0), fresh_interpreter_full_runs=c.get('rec_subprocess_full_runs', 0), files_truncated=c.get('rec_files_truncated', 0), items_resumed=c.get('rec_items_resumed', 0),
                        exhaustive_truncation=dict(recursions=c.get('recx_done', 0), exhaustive=c.get('recx_exhaustive', 0), pairs=c.get('recx_pairs', 0), table=rx)),
         concurrency=dict(groups=c.get('conc_groups', 0), distinct_groups=len(m.sets.get('conc_distinct', ())), processes=c.get('conc_processes', 0),
                          keys=c.get('conc_keys', 0), executions_logged=c.get('conc_executions', 0), caller_results_checked=c.get('conc_callers_ok', 0),
